@@ -66,7 +66,13 @@ func (s *LevelDBStore) PutChangeSet(puts map[string][]byte, stores map[string][]
 			}
 		}
 	}
-	return tx.Commit()
+	err = tx.Commit()
+	if err != nil {
+		// A transaction that failed to commit stays open (and keeps the
+		// write lock of the DB) until it is discarded.
+		tx.Discard()
+	}
+	return err
 }
 
 // Seek implements the Store interface.
@@ -93,9 +99,14 @@ func (s *LevelDBStore) SeekGC(rng SeekRange, keepCont func(k, v []byte) (bool, b
 		return cont
 	})
 	if err != nil {
+		tx.Discard()
 		return err
 	}
-	return tx.Commit()
+	err = tx.Commit()
+	if err != nil {
+		tx.Discard()
+	}
+	return err
 }
 
 func (s *LevelDBStore) seek(iter iterator.Iterator, backwards bool, f func(k, v []byte) bool) {
